@@ -422,6 +422,8 @@ func (fr *stFrame) sym(v ssa.Value) string {
 		if s := stSingleStore(u); s != nil {
 			return fr.sym(s.Val) // &x of a spilled parameter: same role
 		}
+	case *ssa.Extract:
+		return fr.sym(u.Tuple) + fmt.Sprintf("#%d", u.Index)
 	case *ssa.MakeMap:
 		return stTypeName(u.Type()) + "{}"
 	case *ssa.MakeInterface:
